@@ -119,7 +119,7 @@ var r1Frozen = map[string]string{
 
 func ruleR1(c *Ctx, id string) {
 	R, P := c.R, c.P
-	R.Rule(id, "commit-before-success: on every path of every handler that holds a transaction, a success status is returned only after a synchronous commit of the last transaction whose result was tested true", 40)
+	R.Rule(id, "commit-before-success: on every path of every handler that holds a transaction, a success status is returned only after a synchronous commit of the last transaction whose result was tested true", 60)
 	t := c.tsPreamble(id)
 	type agg struct {
 		ok    bool
@@ -197,7 +197,7 @@ func ruleR1(c *Ctx, id string) {
 
 func ruleA1(c *Ctx, id string) {
 	R, P := c.R, c.P
-	R.Rule(id, "error replies abort and never commit: at every error return every transaction of the path is aborted (or untouched, or its commit reported failure); no commit after a step of the transaction reported failure", 30)
+	R.Rule(id, "error replies abort and never commit: at every error return every transaction of the path is aborted (or untouched, or its commit reported failure); no commit after a step of the transaction reported failure", 75)
 	t := c.tsPreamble(id)
 	type agg struct {
 		ok  bool
@@ -292,7 +292,7 @@ func ruleA5(c *Ctx, id string) {
 
 func ruleL2(c *Ctx, id string) {
 	R, P := c.R, c.P
-	R.Rule(id, "every transaction ends on every path: no end state of an entry point leaves a transaction live while it holds inode locks or allocations; no terminator or acquisition on a nil transaction", 16)
+	R.Rule(id, "every transaction ends on every path: no end state of an entry point leaves a transaction live while it holds inode locks or allocations; no terminator or acquisition on a nil transaction", 75)
 	t := c.tsPreamble(id)
 	type agg struct {
 		ok  bool
@@ -432,7 +432,7 @@ func ruleF3(c *Ctx, id string) {
 
 func ruleT1(c *Ctx, id string) {
 	R, P := c.R, c.P
-	R.Rule(id, "every access to a cached inode lies inside its lock's critical section: no field access, method call or argument use of an inode value after a terminator on the transaction that locked it", 60)
+	R.Rule(id, "every access to a cached inode lies inside its lock's critical section: no field access, method call or argument use of an inode value after a terminator on the transaction that locked it", 80)
 	t := c.tsPreamble(id)
 	type agg struct {
 		bad   bool
